@@ -38,23 +38,23 @@ CHECKS = {
     },
     "C20": {
         "category": "model_checking",
-        "technique": "Verus contract on the extracted write_str; bounded Kani harnesses: contract on the 128-byte cause buffer for arbitrary text; never-panics contract on parsers generated by the real derive macro for the repository's own struct family (copied mechanically each run)",
-        "text": "Partial: Verus proves ArgParseCauseBuffer::write_str for text of any length (Ok iff it fits, exact append, Err changes nothing, no panic); bounded: the cause buffer of ArgParseError never panics or overflows for any text up to 130 bytes in two consecutive writes (a write succeeds iff it fits, a rejected write changes nothing, an over-long cause yields the OVERFLOW value with its recorded length); parsers generated by the real proc-macro for the simplest derived structs of tiny-cli/tests/derive_test.rs return Ok or Err — never panic — for every list of <= 2 arguments of <= 3 arbitrary non-NUL bytes. Nothing about 'every struct shape', exact grammar acceptance or the round trip is decided: that is a statement about a program generator.",
+        "technique": "Verus contract on the extracted write_str; bounded Kani harnesses: contract on the 128-byte cause buffer for arbitrary text; never-panics and (for three single-field structs) exact-acceptance contract on parsers generated by the real derive macro for the repository's own struct family (copied mechanically each run)",
+        "text": "Partial: Verus proves ArgParseCauseBuffer::write_str for text of any length (Ok iff it fits, exact append, Err changes nothing, no panic); bounded: the cause buffer of ArgParseError never panics or overflows for any text up to 130 bytes in two consecutive writes (a write succeeds iff it fits, a rejected write changes nothing, an over-long cause yields the OVERFLOW value with its recorded length); parsers generated by the real proc-macro for the simplest derived structs of tiny-cli/tests/derive_test.rs return Ok or Err — never panic — for every list of <= 2 arguments of <= 3 arbitrary non-NUL bytes; for the three single-field structs whose whole grammar fits that bound (flag `-b`; required positional i32; optional positional i32) acceptance is exact, by clauses generated from the struct declaration: the empty line, the declared flag and every rendered i32 of <= 3 bytes incl. sign parse back to exactly that value, everything else is an Err. Nothing about 'every struct shape', several options in any order, or help text is decided: that is a statement about a program generator.",
         "note": "core::fmt is stubbed out of the parser harnesses (new_cause_fmt replaced via kani::stub). Larger structs of the family time out in CBMC and are not claimed.",
         "design_ref": "§4.C20",
     },
     "C14": {
         "category": "model_checking",
         "technique": "bounded Kani harnesses on the real create_dir_all / ReadDir / File::copy with a ghost path log, a scripted getdents64 stream and symbolic copy_file_range counts in the stub kernel (postconditions over the trace); Verus contract on the OpenOptions flag mapping",
-        "text": "Bounded, partial: (a) create_dir_all for every path of 1..4 (thorough: 1..5) bytes over {a,/} — relative/absolute, single component, repeated and trailing separators — with every mkdir answer symbolic (created, EEXIST, ENOENT, any errno): Ok implies the kernel was asked to create the leaf and answered created-or-exists (so, by mkdir's contract, it and its ancestors exist), Err carries the last mkdir's errno; an existing component never makes it fail; (b) ReadDir over a symbolic well-formed getdents64 stream delivered in one or two kernel batches: each record yielded exactly once, in order, with exact NUL-terminated name and type, then end of stream; (c) File::copy for every sequence of copy_file_range answers: destination created+truncated, offsets passed by pointer, exactly the remaining bytes requested, loop ends at st_size or on 0, errors propagate; (d) Verus, unbounded: OpenOptions -> open flag word equals std's documented mapping for all option combinations. Content equality after write/copy, remove_dir_all and symlink behaviour are kernel semantics and are not decided.",
+        "text": "Bounded, partial: (a) create_dir_all for every path of 1..4 (thorough: 1..5) bytes over {a,/} — relative/absolute, single component, repeated and trailing separators — with every mkdir answer symbolic (created, EEXIST, ENOENT, any errno): Ok implies the kernel was asked to create the leaf and answered created-or-exists (so, by mkdir's contract, it and its ancestors exist), Err carries the last mkdir's errno; an existing component never makes it fail; (b) ReadDir over a symbolic well-formed getdents64 stream delivered in one or two kernel batches: each record yielded exactly once, in order, with exact NUL-terminated name and type, then end of stream; (c) File::copy for every sequence of copy_file_range answers: destination created+truncated, offsets passed by pointer, exactly the remaining bytes requested, loop ends at st_size or on 0, errors propagate; (d) Verus, unbounded: OpenOptions -> open flag word equals std's documented mapping for all option combinations; Dirent::try_from_bytes under the kernel's record contract for names of any length up to 255 (exact name bytes, NUL padded, exact type/reclen/ino/off, every unchecked access in range, layout constants proved) and DirEntry::file_unix_name (the name handed to openat/unlinkat is the record's name plus one NUL). Content equality after write/copy, remove_dir_all (measured: no verdict, DESIGN §9.5) and symlink behaviour are not decided.",
         "note": "NOT decided: content equality after write/read/copy, remove_dir_all's effect on the tree, symlinks, File::copy's loop (const fat pointer limit), paths > 5 bytes incl. the 512-byte heap path. Kernel semantics are not modelled beyond mkdir answers and the getdents64 record format.",
         "design_ref": "§4.C14",
     },
     "C13": {
         "category": "fault_enumeration",
         "technique": "Verus data-invariant contract on the extracted builder methods; Kani on the real Command::spawn with a ghost process role in the stub kernel (fork: error/child/parent, exec only fails, exit ends the path after an at-exit contract check); every syscall on both sides symbolically failing",
-        "text": "Verus proves the argv/envp data invariant of Command::arg / Command::env for any number of entries (pointers of the configured strings in order, one trailing NULL, nothing dropped). Bounded, partial: with every system call before and after the fork independently failing with any errno or succeeding, (1) spawn never returns in the child process; (2) a child whose dup2/chdir/setuid/setgid/setpgid/execve fails reports errno_be ++ NOEX carrying that step's positive errno through the sync pipe and exits; (3) the parent returns Ok iff its first non-EINTR read of the sync pipe returned 0; (4) on the child's path to exec, chdir/setuid happen iff configured, before exec, in order, with the configured value, and execve receives exactly the binary, argv = [bin, args.., NULL] and envp = [entries.., NULL] in order (checked in the non-`start` configuration of Command::env).",
-        "note": "Bounded to <= 13 system calls and the listed command shapes (0..1 extra args, 0..2 env entries, no pre-exec closures, Stdio::Null excluded: constant DEV_NULL path is a const fat pointer). Not decided: what the exec'd program observes, the `start`-feature env variant, the no-alloc spawn front end, wait's status semantics (kernel).",
+        "text": "Verus proves the argv/envp data invariant of Command::arg / Command::env for any number of entries (pointers of the configured strings in order, one trailing NULL, nothing dropped). Bounded, partial: with every system call before and after the fork independently failing with any errno or succeeding, (1) spawn never returns in the child process; (2) a child whose dup2/chdir/setuid/setgid/setpgid/execve fails reports errno_be ++ NOEX carrying that step's positive errno through the sync pipe and exits; (3) the parent returns Ok iff its first non-EINTR read of the sync pipe returned 0; (4) on the child's path to exec, chdir/setuid happen iff configured, before exec, in order, with the configured value, and execve receives exactly the binary, argv = [bin, args.., NULL] and envp = [entries.., NULL] in order (checked in the non-`start` configuration of Command::env). (6) Child::wait / try_wait on the returned child ask wait4 about exactly the forked pid (WNOHANG exactly for try_wait), return the status the kernel stored or wait4's errno, give None iff wait4 returned 0, and answer from the stored status without another system call once it is known.",
+        "note": "Bounded to <= 13 system calls and the listed command shapes (0..1 extra args, 0..2 env entries, no pre-exec closures, Stdio::Null excluded: constant DEV_NULL path is a const fat pointer). Not decided: what the exec'd program observes, the `start`-feature env variant, the no-alloc spawn front end, what the wait status means (kernel).",
         "design_ref": "§4.C13",
     },
     "C12": {
@@ -66,8 +66,8 @@ CHECKS = {
     },
     "C07": {
         "category": "model_checking",
-        "technique": "Verus contract on the extracted from_auxv (unbounded) + bounded Kani harnesses with function-level contracts (byte-string definition of environment lookup, last-pair-wins aux values) on the real start/env code over symbolic memory images",
-        "text": "Partial: Verus proves AuxValues::from_auxv for aux vectors of any length (last pair with a key wins, large/unknown keys ignored, no read past AT_NULL). Bounded: on the compiled crates, for every well-formed initial stack image of four concrete shapes with symbolic contents, tiny_start::start::resolve returns pointers to exactly the kernel's argv/envp words and per aux key the value of the last pair with that key (unknown/large keys ignored, nothing read past AT_NULL); env::var / var_unix return the value of the first entry whose name equals the key exactly, Missing otherwise, NotUnicode iff the value is not UTF-8, for every environment of <= 2 entries x <= 4 bytes over the full byte alphabet and every key up to 3-4 bytes; args_os yields exactly argv[0..argc]. Out-of-bounds reads fail Kani's pointer checks. This is a bounded stand-in, not a proof.",
+        "technique": "Verus contracts on the extracted resolve (both cfg variants, over a ghost word memory: any argc / envc) and from_auxv (unbounded) + bounded Kani harnesses with function-level contracts (byte-string definition of environment lookup, last-pair-wins aux values) on the real start/env code over symbolic memory images",
+        "text": "Partial: Verus proves tiny_start::start::resolve for a process-entry stack image of any shape (arg_c = word at sp, arg_v = sp+8, env_p = sp+8*(argc+2), environment scan ends at the first NULL, aux vector taken from right behind it, all reads inside the image) and AuxValues::from_auxv for aux vectors of any length (last pair with a key wins, large/unknown keys ignored, no read past AT_NULL). Bounded: on the compiled crates, for every well-formed initial stack image of four concrete shapes with symbolic contents, tiny_start::start::resolve returns pointers to exactly the kernel's argv/envp words and per aux key the value of the last pair with that key (unknown/large keys ignored, nothing read past AT_NULL); env::var / var_unix return the value of the first entry whose name equals the key exactly, Missing otherwise, NotUnicode iff the value is not UTF-8, for every environment of <= 2 entries x <= 4 bytes over the full byte alphabet and every key up to 3-4 bytes; args_os yields exactly argv[0..argc]. Out-of-bounds reads fail Kani's pointer checks. This is a bounded stand-in, not a proof.",
         "note": "NOT decided: _start assembly, static-PIE self-relocation (relocate_symbols), vDSO lookup/agreement, 'in every link mode', debug/release differences. Keys assumed non-empty without '='. Hook: tiny-std feature verif-hooks (env::verif_set_env).",
         "design_ref": "§4.C07",
     },
